@@ -216,7 +216,17 @@ func RunRtmrCase(cs map[string]any, id int, seed int64) Result {
 			} else if rng.Intn(2) == 0 {
 				log = []byte{}
 			}
-			h := map[string]crypto.Hash{"sha384": crypto.SHA384, "sha256": crypto.SHA256, "sha512": crypto.SHA512}[r["hash"].(string)]
+			h, known := map[string]crypto.Hash{"sha384": crypto.SHA384, "sha256": crypto.SHA256, "sha512": crypto.SHA512, "sha3_384": crypto.SHA3_384,
+				"blake2b_384": crypto.BLAKE2b_384, "sha512_256": crypto.SHA512_256, "sha1": crypto.SHA1, "zero": crypto.Hash(0), "unknown": crypto.Hash(31)}[r["hash"].(string)]
+			if hn := r["hash"].(string); !known && strings.HasPrefix(hn, "h") {
+				n, err := strconv.Atoi(hn[1:])
+				if err != nil {
+					panic("bad hash " + hn)
+				}
+				h = crypto.Hash(n)
+			} else if !known {
+				panic("bad hash " + hn)
+			}
 			s := sha512.Sum384(log)
 			digest = s[:]
 			t.known[string(digest)] = callNo
